@@ -124,10 +124,14 @@ class igmp (packet_base):
       s = struct.pack("!BBHHH", self.ver_and_type, 0, 0, 0, num)
       s += self.extra
 
-      for _ in range(num):
-        off,gr = GroupRecord.unpack_new(self.extra)
-        self.extra = self.extra[off:]
-        self.group_records.append(gr)
+      try:
+        for _ in range(num):
+          off,gr = GroupRecord.unpack_new(self.extra)
+          self.extra = self.extra[off:]
+          self.group_records.append(gr)
+      except struct.error:
+        self.msg('packet data too short for its group records')
+        return None
 
     elif ver_and_type in (MEMBERSHIP_QUERY, MEMBERSHIP_REPORT,
                           MEMBERSHIP_REPORT_V2, LEAVE_GROUP_V2):
